@@ -1693,7 +1693,10 @@ def chain_ops(env, kind):
         keys = _tables_in(env, s)
         if not keys:
             raise Inapplicable()
-        return s.filter_by(id=v.next("int"))
+        try:
+            return s.filter_by(id=v.next("int"))
+        except AttributeError:  # "This SQL expression has no entity namespace with which to filter from"
+            raise Inapplicable()
 
     @op(sel, "join")
     def _(s, rng, v):
